@@ -542,9 +542,13 @@ DRIVE_RULE = (' In addition (R->T) a driver runs long random block histories (de
               '(Proof.Update with random remember choices, Proof.Undo) and TLC checks that it holds exactly what it must with the '
               'canonical proof; four partial forests follow as well (two verify every block\'s targets again, two verify only what they do '
               'not remember and prune, ingest and verify-with-remember random sets between blocks) and are dumped after every block: '
-              'leaf index exact, every stored hash true, stored positions between StoredLower and StoredUpper; every deviating event '
+              'leaf index exact, every stored hash true, stored positions between StoredLower and StoredUpper; after every block an honest '
+              'proof of a random set of leaves is mutated in structured ways (target moved to its sibling, a cousin, another tree, a '
+              'non-existent position; duplicated; replaced by or nested with its parent; hashes swapped or replaced by a root hash or '
+              'a fresh value; a proof hash altered, zeroed, dropped, inserted or swapped) and given to Verify, Pollard.Verify and '
+              'MapPollard.Verify, every acceptance being judged by TLC with ClaimsTrue; every deviating event '
               'is reported and confirmed by running its history alone.')
-for _p in ('C01', 'C02', 'C06', 'C07', 'C08', 'C09', 'C10', 'C11'):
+for _p in ('C01', 'C02', 'C03', 'C06', 'C07', 'C08', 'C09', 'C10', 'C11'):
     PLAN[_p]['stages'] = (lambda f: (lambda tier, seed: f(tier, seed) + [drive(tier)]))(PLAN[_p]['stages'])
     PLAN[_p]['rule'] += DRIVE_RULE
     for _t in ('quick', 'thorough'):
